@@ -1,7 +1,7 @@
 """System-call level legs built on trace.py: skeleton correspondence, confinement, kill sweeps,
 errno injection.  Each leg returns a dict {failures, disagreements, evaluations, distinct_nontrivial,
 samples, ...} that bin/check merges into the evidence."""
-import os, re, shutil, hashlib, json, itertools
+import re, os, re, shutil, hashlib, json, itertools
 from concurrent.futures import ThreadPoolExecutor
 from . import common as C
 from . import engine as E
@@ -169,24 +169,42 @@ def leg_kill_sweep(cases, flavour, max_points=40, jobs=8):
     process there, then inspect the directory with a fresh process."""
     failures, samples, disagreements = [], [], []
     points = 0
+    crash_compared = 0
     states = set()
 
     def sweep(case):
+        # The setup runs in a process of its own; the victim alone is swept, its op loop on a fresh
+        # thread (DRIVE_WORKER): strace keeps `when=N` per thread, so N = 1..(calls of the operation on
+        # that thread) reaches every mutating system call of the operation and nothing else.
         res = []
-        ops = case["setup"] + [case["victim"]]
-        # main-thread syscalls of KILL_SET in the whole program (strace's when=N counts per thread; the
-        # sync API runs on the main thread): probe upwards until a run survives
-        base = T.run_traced(flavour, ops, keep=False)
-        by_pid = base.counts_by_pid or {}
+        W = {"DRIVE_WORKER": "1"}
+        tmpl = os.path.join(C.scratch_root(), f"kill-tmpl{next(E._counter)}")
+        rs = T.run_traced(flavour, case["setup"], scratch=tmpl)
+        try:
+            case["_crash_set"] = model_crash_set(case["setup"], rs.impl_lines, case["victim"])
+        except Exception:
+            case["_crash_set"] = None
+
+        def fresh():
+            d = os.path.join(C.scratch_root(), f"kill{next(E._counter)}")
+            shutil.rmtree(d, ignore_errors=True)
+            shutil.copytree(tmpl, d, symlinks=True)
+            return d
+        sc = fresh()
+        base = T.run_traced(flavour, [case["victim"]], scratch=sc, reuse=True, env_extra=W)
+        shutil.rmtree(sc, ignore_errors=True)
         names = KILL_SET.split(",")
-        main_total = max([sum(c.get(nm, 0) for nm in names) for c in by_pid.values()] or [0])
-        ns = list(range(1, main_total + 1))
+        pids = list(base.counts_by_pid)
+        threads = pids[1:] if len(pids) > 1 else pids
+        total = max([sum(base.counts_by_pid[t].get(nm, 0) for nm in names) for t in threads] or [0])
+        ns = list(range(1, total + 1))
         if len(ns) > max_points:
             step = len(ns) / max_points
             ns = sorted(set(ns[int(i * step)] for i in range(max_points)))
         for n in ns:
-            scratch = os.path.join(C.scratch_root(), f"kill{next(E._counter)}")
-            r = T.run_traced(flavour, ops, scratch=scratch, inject=f"inject={KILL_SET}:signal=SIGKILL:when={n}", keep=False)
+            scratch = fresh()
+            r = T.run_traced(flavour, [case["victim"]], scratch=scratch, reuse=True, env_extra=W,
+                             inject=f"inject={KILL_SET}:signal=SIGKILL:when={n}", keep=False)
             # look at what is left, with a fresh process
             key = case["key"]
             probe = ["dump c0", f"metadata s c0 {hx(key)}", f"metadata a c0 {hx(key)}", f"read s c0 {hx(key)}", "list c0"]
@@ -197,6 +215,7 @@ def leg_kill_sweep(cases, flavour, max_points=40, jobs=8):
             r2 = T.run_traced(flavour, probe, scratch=scratch, reuse=True, keep=False)
             shutil.rmtree(scratch, ignore_errors=True)
             res.append((n, r, r2, probe))
+        shutil.rmtree(tmpl, ignore_errors=True)
         return case, res
     with ThreadPoolExecutor(max_workers=jobs) as ex:
         allres = list(ex.map(sweep, cases))
@@ -205,7 +224,7 @@ def leg_kill_sweep(cases, flavour, max_points=40, jobs=8):
             if not r.killed:
                 continue
             points += 1
-            during_setup = len(r.impl_lines) < len(case["setup"])
+            during_setup = False          # the setup ran (unharmed) in a process of its own
             where = f"kill at syscall {n} of `{case['victim'][:60]}`"
             il = r2.impl_lines
             if len(il) < len(probe):
@@ -215,7 +234,21 @@ def leg_kill_sweep(cases, flavour, max_points=40, jobs=8):
                 continue
             fs_ = content_valid_monitor(il[0], where)
             fs_ += content_valid_monitor(il[-1], where + " (after a further write)")
-            fs_ += trace_monitor(r, case["setup"] + [case["victim"]], where + ": ")
+            fs_ += trace_monitor(r, [case["victim"]], where + ": ")
+            # crash correspondence: the tree a real SIGKILL leaves is one of the model's crash states
+            cs = case.get("_crash_set")
+            if cs is not None:
+                files0, links0, _ = parse_dump(il[0])
+                real = _mask_state({p_: b_ for p_, b_ in files0.items() if p_.startswith("c0/")},
+                                   {p_: v_ for p_, v_ in links0.items() if p_.startswith("c0/")})
+                crash_compared += 1
+                if real not in cs:
+                    best = sorted(cs, key=lambda m_: len(m_ ^ real))[0]
+                    disagreements.append({"prog": case["victim"][:40], "op_index": len(case["setup"]), "op": case["victim"][:200],
+                                          "what": f"the tree left by a real SIGKILL ({where}) is not among the model's crash states",
+                                          "real": sorted(f"{k_}:{p_}:{len(b_)}" for k_, p_, b_ in real - best)[:8],
+                                          "model": [f"{len(cs)} crash states; nearest differs in"] + sorted(f"{k_}:{p_}:{len(b_)}" for k_, p_, b_ in best - real)[:8],
+                                          "ops": case["setup"] + [case["victim"], f"# killed with inject={KILL_SET}:signal=SIGKILL:when={n}"]})
             # old or new
             old, new = case.get("old"), case.get("new")
             for j in (1, 2):
@@ -258,7 +291,7 @@ def leg_kill_sweep(cases, flavour, max_points=40, jobs=8):
                                 "events_before_kill": T.skeleton(r.events[-1] if r.events else [])[-4:],
                                 "lookup_after": il[1][:80]})
     return {"failures": failures, "disagreements": disagreements, "evaluations": points, "distinct_nontrivial": len(states),
-            "samples": samples, "kill_points": points}
+            "samples": samples, "kill_points": points, "crash_states_compared_with_model": crash_compared}
 
 
 def kill_cases(r, n):
@@ -272,16 +305,17 @@ def kill_cases(r, n):
         if old:
             setup.append(w_oneshot("s", old[0], key, old[1]))
         kind = r.pick(["write", "write", "stream", "remove"])
+        vf = r.pick("ssa")          # the victim also through the async API (kill counters are per thread)
         if kind == "remove" and old:
-            victim, newv = f"remove s c0 {hx(key)}", None
+            victim, newv = f"remove {vf} c0 {hx(key)}", None
         elif kind == "stream":
             md = {"note": "é日本", "n": i}
-            victim = f"index_insert s c0 {hx(key)} sri={hx(L.sri_of(*new).encode())} time=- size={len(new[1])} meta={hx(L.render_json(md).encode())} raw=-"
+            victim = f"index_insert {vf} c0 {hx(key)} sri={hx(L.sri_of(*new).encode())} time=- size={len(new[1])} meta={hx(L.render_json(md).encode())} raw=-"
             # index_insert alone does not store content: put it there first so that 'visible => readable' is meaningful
             setup.append(f"write_hash s c0 {new[0]} {hx(new[1])}")
             newv = new
         else:
-            victim, newv = w_oneshot("s", algo, key, new[1]), new
+            victim, newv = w_oneshot(vf, algo, key, new[1]), new
         cases.append({"setup": setup, "victim": victim, "key": key, "old": old, "new": newv,
                       "others": {b"other": ("sha256", b"other value")}})
     return cases
@@ -306,6 +340,8 @@ def leg_fault_injection(cases, flavour, tier, jobs=8):
     failures, samples = [], []
     injections = 0
     classes = set()
+    fault_dis = []
+    compared = 0
 
     ALLNAMES = sum((c.split(",") for c in FAULT_CALLS), [])
     WORKER = {"DRIVE_WORKER": "1"}
@@ -317,7 +353,11 @@ def leg_fault_injection(cases, flavour, tier, jobs=8):
         # every pool thread of the async runtimes — and never hits the process start-up.
         out = []
         tmpl = os.path.join(C.scratch_root(), f"flt-tmpl{next(E._counter)}")
-        T.run_traced(flavour, case["setup"], scratch=tmpl)
+        rs = T.run_traced(flavour, case["setup"], scratch=tmpl)
+        try:
+            case["_model_set"] = model_fault_set(case["setup"], rs.impl_lines, case["victim"])
+        except Exception as ex:          # the correspondence must never take the leg down
+            case["_model_set"] = None
 
         def fresh():
             d = os.path.join(C.scratch_root(), f"flt{next(E._counter)}")
@@ -410,6 +450,23 @@ def leg_fault_injection(cases, flavour, tier, jobs=8):
                     m = meta_of_line(r.impl_lines[vi])
                     if m is None:
                         fs_.append(Failure("untruthful_lookup_under_fault", n, f"{where}: lookup of a live key answered 'not found'", sig=sig))
+            # correspondence of the fault semantics: the real outcome (result class, files of the cache)
+            # must be one the model allows for a single failing call of this operation
+            ms = case.get("_model_set")
+            if ms is not None and len(il) >= len(probe) and not r.killed and res[0] not in ("panic", "hang", "missing"):
+                files0, links0, _ = parse_dump(il[0])
+                cfiles = {p_: b_ for p_, b_ in files0.items() if p_.startswith("c0/")}
+                clinks = {p_: v_ for p_, v_ in links0.items() if p_.startswith("c0/")}
+                real = (E.rclass(r.impl_lines[vi]), _mask_state(cfiles, clinks))
+                compared += 1
+                if real not in ms:
+                    same_res = [m_ for m_ in ms if m_[0] == real[0]]
+                    fault_dis.append({"prog": case["victim"][:40], "op_index": 0, "op": case["victim"][:200],
+                                      "what": f"outcome of a real injected fault ({where}) is not among the model's single-fault outcomes",
+                                      "real": [real[0]] + sorted(f"{k_}:{p_}" for k_, p_, _ in real[1])[:12],
+                                      "model": [f"{len(ms)} outcomes; {len(same_res)} with this result class"] +
+                                               (sorted(f"{k_}:{p_}" for k_, p_, _ in sorted(same_res, key=lambda m_: len(m_[1] ^ real[1]))[0][1])[:12] if same_res else []),
+                                      "ops": case["setup"] + [case["victim"], f"# strace -e inject={cls}:error={en}:when={n}"]})
             for f in fs_:
                 f.replay_text = "\n".join(case["setup"] + [case["victim"]]) + f"\n# with strace -e inject={cls}:error={en}:when={n}; then:\n" + "\n".join(probe) + "\n"
             failures += fs_
@@ -419,8 +476,72 @@ def leg_fault_injection(cases, flavour, tier, jobs=8):
     by_call = {}
     for v, c, en, rs in classes:
         by_call[f"{v}/{c}"] = by_call.get(f"{v}/{c}", 0) + 1
-    return {"failures": failures, "disagreements": [], "evaluations": injections, "distinct_nontrivial": len(classes),
-            "samples": samples, "injections": injections, "fault_classes": by_call}
+    return {"failures": failures, "disagreements": fault_dis, "evaluations": injections, "distinct_nontrivial": len(classes),
+            "samples": samples, "injections": injections, "fault_classes": by_call,
+            "fault_outcomes_compared_with_model": compared}
+
+
+_TIME_RE = re.compile(rb'"time":\d+')
+
+
+def _mask_state(files, links):
+    """Canonical view of a cache's files for the fault correspondence: bucket lines with checksum and
+    time masked (a default time stamp is the wall clock), everything else verbatim."""
+    out = []
+    for p, b in files.items():
+        if "/index-v5/" in p:
+            lines = []
+            for ln in b.split(b"\n"):
+                h, tab, j = ln.partition(b"\t")
+                lines.append((b"H" if tab and len(h) == 64 else h) + tab + _TIME_RE.sub(b'"time":T', j))
+            b = b"\n".join(lines)
+        out.append(("f", p, b))
+    for p, v in links.items():
+        out.append(("l", p, v))
+    return frozenset(out)
+
+
+def model_fault_set(setup_ops, setup_impl, victim):
+    """All single-fault outcomes the model allows for `victim` after `setup_ops`:
+    set of (result class, masked files).  None when the driver has no program for the op."""
+    pre = E.xxh3_oracle_lines(setup_ops + [victim]) if any("xxh3" in o for o in setup_ops + [victim]) else []
+    ann = pre + E.annotate(setup_ops, setup_impl) + ["faultset " + victim]
+    out = E.run_model(ann)
+    if not out or not out[-1].startswith("ok "):
+        return None
+    res = set()
+    for item in out[-1][3:].split(" ;; "):
+        r, _, dump = item.partition("|")
+        files, links = {}, {}
+        for x in (dump.split(",") if dump else []):
+            kind, _, rest = x.partition(":")
+            pth, _, v = rest.partition("=")
+            if kind == "f":
+                files[pth] = unhx(v)
+            elif kind == "l":
+                links[pth] = v
+        res.add((E.rclass(r), _mask_state(files, links)))
+    return res
+
+
+def model_crash_set(setup_ops, setup_impl, victim):
+    """Every state (masked files + links of the cache) the model's `crash n t` can leave for `victim`."""
+    pre = E.xxh3_oracle_lines(setup_ops + [victim]) if any("xxh3" in o for o in setup_ops + [victim]) else []
+    out = E.run_model(pre + E.annotate(setup_ops, setup_impl) + ["crashset " + victim])
+    if not out or not out[-1].startswith("ok"):
+        return None
+    res = set()
+    for dump in out[-1][3:].split(" ;; "):
+        files, links = {}, {}
+        for x in (dump.split(",") if dump else []):
+            kind, _, rest = x.partition(":")
+            pth, _, v = rest.partition("=")
+            if kind == "f":
+                files[pth] = unhx(v)
+            elif kind == "l":
+                links[pth] = v
+        res.add(_mask_state(files, links))
+    return res
 
 
 def fault_cases_writes(r):
